@@ -86,8 +86,11 @@ pub fn c01(ctx: &Ctx) -> (CheckMeta, Outcome) {
             let seed = ctx.seed;
             let thorough = ctx.thorough;
             tasks.push(Box::new(move || {
-                let full = full_alphabet(wbits, seed, true);
-                let bnd = boundary_alphabet(wbits, seed, true);
+                // dirty arguments (bits above n set) are part of the alphabet unless this build of the
+                // library rejects them by design (feature `checks`, see C19)
+                let dirty = !cfg!(feature = "checks");
+                let full = full_alphabet(wbits, seed, dirty);
+                let bnd = boundary_alphabet(wbits, seed, dirty);
                 let mut out = Outcome::new();
                 // bounded-depth exploration with real-backend replays at every node
                 let alphabets = if thorough { vec![full.clone(), full.clone(), full.clone(), bnd.clone()] } else { vec![full.clone(), full.clone(), bnd.clone()] };
@@ -109,9 +112,9 @@ pub fn c01(ctx: &Ctx) -> (CheckMeta, Outcome) {
                 {
                     let narrow = vec![
                         WOp::WriteBits { v: 1, n: 1 },
-                        WOp::WriteBits { v: u64::MAX, n: (wbits.min(64) - 1) as u8 },
+                        WOp::WriteBits { v: if dirty { u64::MAX } else { mask((wbits.min(64) - 1) as u8) }, n: (wbits.min(64) - 1) as u8 },
                         WOp::WriteBits { v: value_patterns(seed)[3], n: 64 },
-                        WOp::WriteBits { v: 0x2B | (u64::MAX << 7), n: 7 },
+                        WOp::WriteBits { v: if dirty { 0x2B | (u64::MAX << 7) } else { 0x2B }, n: 7 },
                         WOp::Unary(0),
                         WOp::Unary(wbits as u64),
                         WOp::Flush,
@@ -214,10 +217,11 @@ pub fn c12(ctx: &Ctx) -> (CheckMeta, Outcome) {
     out.merge(crate::props::readers::c12_read(ctx));
     out.merge(long_histories("C12", ctx, true));
     out.merge(c12_alignment(ctx));
+    out.merge(c12_vectored(ctx));
     let meta = CheckMeta {
         property: "C12".into(),
         level: "model_checking".into(),
-        rule: "write side: BFS over the real BufBitWriter for E x W in {8..128}: level 0 reaches every buffer fill level (every starting bit offset), then std::io::Write::write of every slice length 0..=40 (two byte patterns) and 41,47,48,49,63,64,65,100, then further byte writes / boundary bit writes / flush / io::Write::flush; returned count must equal the slice length, delivered words and final images on all real backends must equal the model (byte = 8 stream bits in stream order); read side: BFS to the fixpoint of every reader kind over zero-extended/strict/Cursor backends with io::Read of every length 0..=40 at every reachable state; plus single byte writes of 4 097, 65 535, 65 536, 65 537 and 100 003 bytes (thorough up to 2^20+1) at bit offsets 0 and 3 on every real backend; plus the address-alignment sweep: every slice length 0..=40 x every start address modulo 8 of the caller's slice x starting bit offsets (all 0..=2W+1 for W <= 16 and in the thorough tier, boundary offsets otherwise) on the writer of every word size, and on every reader kind (every offset 0..=2W+1, every length); in the BFS sections the slice address is (3 len + 1) mod 8".into(),
+        rule: "write side: BFS over the real BufBitWriter for E x W in {8..128}: level 0 reaches every buffer fill level (every starting bit offset), then std::io::Write::write of every slice length 0..=40 (two byte patterns) and 41,47,48,49,63,64,65,100, then further byte writes / boundary bit writes / flush / io::Write::flush; returned count must equal the slice length, delivered words and final images on all real backends must equal the model (byte = 8 stream bits in stream order); read side: BFS to the fixpoint of every reader kind over zero-extended/strict/Cursor backends with io::Read of every length 0..=40 at every reachable state; plus single byte writes of 4 097, 65 535, 65 536, 65 537 and 100 003 bytes (thorough up to 2^20+1) at bit offsets 0 and 3 on every real backend; plus the address-alignment sweep: every slice length 0..=40 x every start address modulo 8 of the caller's slice x starting bit offsets (all 0..=2W+1 for W <= 16 and in the thorough tier, boundary offsets otherwise) on the writer of every word size, and on every reader kind (every offset 0..=2W+1, every length); in the BFS sections the slice address is (3 len + 1) mod 8; plus io::Write::write_vectored driven to completion for every partition of the input into at most 3 slices with lengths from {0,1,2,3,5,7,8,9,12,20} at 6 bit offsets on every word size: the returned count must not exceed the input and the stream must hold exactly the bytes reported as written, in order".into(),
         assumptions: vec!["reference model = canonical layout".into()],
     };
     (meta, out)
@@ -282,14 +286,18 @@ pub fn c08_dest(ctx: &Ctx) -> Outcome {
 pub fn c08(ctx: &Ctx) -> (CheckMeta, Outcome) {
     let mut out = crate::props::readers::c08_source(ctx);
     out.merge(c08_dest(ctx));
-    out.merge(crate::props::readers::c08_long(ctx));
-    out.merge(crate::props::huge::c08_huge(ctx));
+    // the long and the 2^32-bit copies are not repeated in the slower build with debug assertions in the
+    // quick tier (the two state-space views are)
+    if ctx.thorough || !cfg!(debug_assertions) {
+        out.merge(crate::props::readers::c08_long(ctx));
+        out.merge(crate::props::huge::c08_huge(ctx));
+    }
     let variant = if cfg!(feature = "no_copy_impls") { "generic copy paths (no_copy_impls)" } else { "optimised copy paths" };
     out.cov.notes.push(format!("this binary was built with the {}", variant));
     let meta = CheckMeta {
         property: "C08".into(),
         level: "model_checking".into(),
-        rule: "the reader x writer product is cut along the copy step. Source view: BFS to the FIXPOINT of the real reader (Buf8..Buf64, unbuffered; zero-extended, strict, Cursor backends; Count wrapper) whose alphabet contains, besides boundary reads/peeks/skips, all table and table-free code reads and seeks, copy_to/copy_from of n bits (quick: 0,1,2,W/2,W-1,W,W+1; thorough: every n in 0..=2W+2; both plus 2W-1..2W+1, 3W+2, 5W+7, 8W, 200) into a fresh writer of every word size 8..128 pre-filled with 2 (thorough 6) bit counts; the destination's whole image (prefill ++ copied bits ++ sentinel) is compared with the model and the source continues as an ordinary BFS state, so EVERY continuation of EVERY post-copy state is explored. Destination view: BFS (depth 3) over the real writer: fill level, copy-in from a fresh source reader of every kind advanced by k bits and optionally peeked (more than one word buffered), continuation writes; delivered words and final images on real backends vs the model. Long-copy grid: single copies of B words + r bits (B in 127,128,129,256,1024 (thorough: 15 values from 63 to 1025), word = source or destination word, r in 0,1,5,21,W-1) from every source kind into every destination word size, 3 destination fills, 2 source offsets, both directions, with the source's position and next bits checked. Huge copies: single copies of 2^32 and 2^32+3 bits (thorough: also 2^32-1, 2^32+64, 3*2^31+17; destination words 32/64/128) from a buffered reader over a synthetic word source into a buffered writer over a comparing sink, both directions, every destination byte, the byte count, the source position and the source's next 64 bits checked. All of these are run on the build with the optimised copy paths and on the build with --features no_copy_impls".into(),
+        rule: "the reader x writer product is cut along the copy step. Source view: BFS to the FIXPOINT of the real reader (Buf8..Buf64, unbuffered; zero-extended, strict, Cursor backends; Count wrapper) whose alphabet contains, besides boundary reads/peeks/skips, all table and table-free code reads and seeks, copy_to/copy_from of n bits (quick: 0,1,2,W/2,W-1,W,W+1; thorough: every n in 0..=2W+2; both plus 2W-1..2W+1, 3W+2, 5W+7, 8W, 200) into a fresh writer of every word size 8..128 pre-filled with 2 (thorough 6) bit counts; the destination's whole image (prefill ++ copied bits ++ sentinel) is compared with the model and the source continues as an ordinary BFS state, so EVERY continuation of EVERY post-copy state is explored. Destination view: BFS (depth 3) over the real writer: fill level, copy-in from a fresh source reader of every kind advanced by k bits and optionally peeked (more than one word buffered), continuation writes; delivered words and final images on real backends vs the model. Long-copy grid: single copies of B words + r bits (B in 127,128,129,256,1024 (thorough: 15 values from 63 to 1025), word = source or destination word, r in 0,1,5,21,W-1) from every source kind into every destination word size, 3 destination fills, 2 source offsets, both directions, with the source's position and next bits checked. Huge copies: single copies of 2^32 and 2^32+3 bits (thorough: also 2^32-1, 2^32+64, 3*2^31+17; destination words 32/64/128) from a buffered reader over a synthetic word source into a buffered writer over a comparing sink, both directions, every destination byte, the byte count, the source position and the source's next 64 bits checked. All of these are run on the build with the optimised copy paths (the two state-space views also on a build with debug assertions and overflow checks) and on the build with --features no_copy_impls".into(),
         assumptions: vec!["reference model = canonical layout".into()],
     };
     (meta, out)
@@ -326,7 +334,8 @@ pub fn c14_write(ctx: &Ctx) -> Outcome {
                 let seed = ctx.seed;
                 let thorough = ctx.thorough;
                 tasks.push(Box::new(move || {
-                    let mut alph = boundary_alphabet(wbits, seed, true);
+                    // dirty arguments are in the alphabet unless this build of the library rejects them by design
+                    let mut alph = boundary_alphabet(wbits, seed, !cfg!(feature = "checks"));
                     alph.extend(code_write_ops());
                     for (k, n) in [(0u16, 1u16), (3, 17), (1, 64), (0, 65), (5, 130)] {
                         for from in [false, true] {
@@ -768,6 +777,143 @@ pub fn c14_unwrap(_ctx: &Ctx) -> Outcome {
                         go_w!(LE, u128, false);
                         go_w!(LE, u128, true);
                     }
+                }
+                out
+            }));
+        }
+    }
+    run_all(tasks, threads())
+}
+
+
+/// std::io::Write::write_vectored is part of the Write view: whatever an implementation makes of a
+/// list of slices, the count it returns is the number of bytes (in order, from the front of the
+/// concatenation) that are now in the stream.  Driven to completion like write_all would.
+pub fn c12_vectored(_ctx: &Ctx) -> Outcome {
+    use crate::report::Violation;
+    use dsi_bitstream::prelude::*;
+    use std::io::{IoSlice, Write};
+    let mut tasks: Vec<Task> = vec![];
+    let lens: [usize; 10] = [0, 1, 2, 3, 5, 7, 8, 9, 12, 20];
+    let mut parts: Vec<Vec<usize>> = vec![];
+    for &a in &lens {
+        parts.push(vec![a]);
+        for &b in &lens {
+            parts.push(vec![a, b]);
+            for &c in &lens {
+                parts.push(vec![a, b, c]);
+            }
+        }
+    }
+    let parts = std::sync::Arc::new(parts);
+    for e in End::BOTH {
+        for wbits in WBITS {
+            let parts = parts.clone();
+            tasks.push(Box::new(move || {
+                let mut out = Outcome::new();
+                let cfg = format!("{}/vectored", cfg_id(e, wbits, ""));
+                out.cov.configs.insert(cfg.clone());
+                let data: Vec<u8> = (0..64u32).map(|i| (i.wrapping_mul(0x3B).wrapping_add(0x91)) as u8 | 1).collect();
+                macro_rules! go {
+                    ($E:ty, $W:ty) => {{
+                        for o in [0usize, 1, 3, 7, 8, wbits - 1] {
+                            for part in parts.iter() {
+                                let total: usize = part.iter().sum();
+                                let rec = Rec::<$W>::new();
+                                let log = rec.log.clone();
+                                let r = std::panic::catch_unwind(std::panic::AssertUnwindSafe(|| -> Result<(), String> {
+                                    let mut w = BufBitWriter::<$E, _>::new(rec);
+                                    let mut left = o;
+                                    while left > 0 {
+                                        let c = left.min(61);
+                                        w.write_bits(0x6B8B_4567_327B_23C6 & mask(c as u8), c).map_err(|e| format!("{e}"))?;
+                                        left -= c;
+                                    }
+                                    // the slices, as (start, end) into `data`
+                                    let mut segs: Vec<(usize, usize)> = vec![];
+                                    let mut at = 0;
+                                    for &l in part.iter() {
+                                        segs.push((at, at + l));
+                                        at += l;
+                                    }
+                                    let mut done = 0usize;
+                                    let mut guard = 0;
+                                    while done < total {
+                                        guard += 1;
+                                        if guard > 200 {
+                                            return Err("write_vectored makes no progress".into());
+                                        }
+                                        let bufs: Vec<IoSlice> = segs.iter().filter(|(s, t)| *t > done.max(*s)).map(|(s, t)| IoSlice::new(&data[done.max(*s)..*t])).collect();
+                                        let n = w.write_vectored(&bufs).map_err(|e| format!("{e}"))?;
+                                        if n == 0 {
+                                            return Err(format!("write_vectored returned 0 with {} bytes left", total - done));
+                                        }
+                                        if done + n > total {
+                                            return Err(format!("write_vectored returned {} with only {} bytes offered", n, total - done));
+                                        }
+                                        done += n;
+                                    }
+                                    w.write_bits(0b1011001, 7).map_err(|e| format!("{e}"))?;
+                                    BitWrite::<$E>::flush(&mut w).map_err(|e| format!("{e}"))?;
+                                    Ok(())
+                                }));
+                                let mut ops: Vec<WOp> = vec![];
+                                let mut left = o;
+                                while left > 0 {
+                                    let c = left.min(61);
+                                    ops.push(WOp::WriteBits { v: 0x6B8B_4567_327B_23C6 & mask(c as u8), n: c as u8 });
+                                    left -= c;
+                                }
+                                ops.push(WOp::IoWrite(data[..total].to_vec()));
+                                ops.push(WOp::WriteBits { v: 0b1011001, n: 7 });
+                                ops.push(WOp::Flush);
+                                let (model, _, _) = model_history(&ops, e, wbits);
+                                let want = model.to_bytes(e, wbits);
+                                out.cov.evaluations += 1;
+                                out.cov.transitions += part.len() as u64 + 2;
+                                if part.len() > 1 {
+                                    out.cov.nontrivial += 1;
+                                }
+                                let bad: Option<(&str, String)> = match r {
+                                    Err(p) => Some(("panic", crate::util::panic_msg(&p))),
+                                    Ok(Err(m)) => Some(("error", m)),
+                                    Ok(Ok(())) => {
+                                        let got = log.borrow().clone();
+                                        if got != want {
+                                            Some(("bytes", format!("stream is {} (expected {})", crate::util::hex(&got), crate::util::hex(&want))))
+                                        } else {
+                                            None
+                                        }
+                                    }
+                                };
+                                if let Some((sym, d)) = bad {
+                                    if out.violations.len() < 12 {
+                                        out.violations.push(Violation {
+                                            property: "C12".into(),
+                                            system: "writer".into(),
+                                            config: cfg.clone(),
+                                            op_class: "io_write_vectored".into(),
+                                            symptom: sym.into(),
+                                            detail: format!("write_vectored of slices of lengths {:?} at bit offset {}, driven to completion: {}", part, o, d),
+                                            replay: serde_json::json!({"kind": "none"}),
+                                        });
+                                    }
+                                }
+                            }
+                        }
+                    }};
+                }
+                match (e, wbits) {
+                    (End::BE, 8) => go!(BE, u8),
+                    (End::BE, 16) => go!(BE, u16),
+                    (End::BE, 32) => go!(BE, u32),
+                    (End::BE, 64) => go!(BE, u64),
+                    (End::BE, _) => go!(BE, u128),
+                    (End::LE, 8) => go!(LE, u8),
+                    (End::LE, 16) => go!(LE, u16),
+                    (End::LE, 32) => go!(LE, u32),
+                    (End::LE, 64) => go!(LE, u64),
+                    (End::LE, _) => go!(LE, u128),
                 }
                 out
             }));
